@@ -22,7 +22,7 @@ func c02Segment(sc *WF, seg []Ev) string {
 	want := n
 	allFail := true
 	for a := 0; a < n; a++ {
-		if sc.outcome(leaf, visit, "exec", a).Err == 0 {
+		if execOK(sc.outcome(leaf, visit, "exec", a)) {
 			want, allFail = a+1, false
 			break
 		}
